@@ -1,6 +1,6 @@
 import Pyxv.Model.Convert
 import Pyxv.Proofs.XmlRoundTrip
-import Pyxv.Proofs.C01Decls
+import Pyxv.Proofs.C01NoBr
 import Pyxv.Proofs.C02
 import Pyxv.Proofs.C04
 import Pyxv.Proofs.C03Text
@@ -439,10 +439,11 @@ theorem convert_ok (wb : Workbook) (p : Bool) (text : Str) (h : convert wb p = .
   · simp at h
 
 /-- the element and attribute names of the produced tree contain no `]` (complement of the open finding F5:
-    `is_xml_tag` accepts the literal `À-Ö]`) and stay clear of the reserved namespace names / the prefix `xmlns`
-    on an element (complements of F2b-reserved, F3x).  Decidable on the tree; in the fragment the names are the
-    `name` cells plus constants of the type table. -/
-def NamesClean (doc : Node) : Prop := noBrTree doc = true ∧ noReserved doc = true
+    `is_xml_tag` accepts the literal `À-Ö]`).  (The reserved namespace names / the prefix `xmlns` on an element —
+    the former findings F2b-reserved, F3x — are rejected by the validation pass itself now:
+    `noReserved_of_validDoc`.)  Decidable on the tree; in the fragment the names are the `name` cells plus
+    constants of the type table. -/
+def NamesClean (doc : Node) : Prop := noBrTree doc = true
 
 theorem trace_wf {wb doc f lists rows drows o ditems} (T : Trace wb doc f lists rows drows o ditems)
     (hb : noBrTree doc = true) : doc.WFLax = true ∧ isElem doc = true := by
@@ -484,12 +485,12 @@ theorem convert_c01 (wb : Workbook) (p : Bool) (text : Str) (h : convert wb p = 
     holds text (normAttrVal (formId wb)) = true := by
   obtain ⟨doc, hd, rfl⟩ := convert_ok wb p text h
   obtain ⟨f, lists, rows, drows, o, ditems, T⟩ := convertDoc_trace wb doc hd
-  obtain ⟨hb, hr⟩ := hn doc hd
+  have hb : noBrTree doc = true := hn doc hd
   have hid : formId wb = f.idString := by simp [formId, T.hf]
   rw [hid, T.hdoc]
   have hdoc := T.hdoc
   subst hdoc
-  exact accepted_assembled_holds f none _ _ _ T.hvalid hb hr (trace_partsDom T) p
+  exact accepted_assembled_holds f none _ _ _ T.hvalid hb (trace_partsDom T) p
 
 #print axioms convert_c01
 
@@ -1348,14 +1349,77 @@ theorem isOkWith_eq {r : Except Convert.Err Str} {s : Str} (h : isOkWith r s = t
   · rw [beq_iff_eq] at h; rw [h]
   · simp at h
 
+/-! ## 4b. the hypothesis of `convert_c01`, on the sources of the names -/
+
+mutual
+theorem noBr_instNode (defs : List (List Str × Str)) : ∀ (pre : List Str) (t : NT), ntAll noBr t = true →
+    noBrTree (instNode defs pre t) = true
+  | pre, .node n t ks, h => by
+    rw [ntAll_node, Bool.and_eq_true] at h
+    have ha : (Convert.tmplAttrs t).all (fun kv => noBr kv.1) = true := by cases t <;> decide
+    cases ks with
+    | nil =>
+      simp only [instNode]
+      refine noBr_elem h.1 ha ?_
+      split <;> simp [noBrKids, noBrTree]
+    | cons k ks' =>
+      simp only [instNode]
+      exact noBr_elem h.1 ha (noBr_instNodes defs (pre ++ [n]) (k :: ks') h.2)
+theorem noBr_instNodes (defs : List (List Str × Str)) : ∀ (pre : List Str) (ts : List NT), ntAllL noBr ts = true →
+    noBrKids (instNodes defs pre ts) = true
+  | _, [], _ => by simp [instNodes, noBrKids]
+  | pre, k :: ks, h => by
+    rw [ntAllL_cons, Bool.and_eq_true] at h
+    simp only [instNodes]
+    exact noBrKids_cons (noBr_instNode defs pre k h.1) (noBr_instNodes defs pre ks h.2)
+end
+
+/-- **`NamesClean` from the sources of the names.**  The produced document is `]`-free when the header's
+    user-supplied names are (`HeaderNoBr`: namespaces prefixes, `attribute::`/`instance::` settings columns, form
+    name), the *names of the element tree* (the `name` cells, plus the generated `_count` / `_other` / meta names)
+    are, and the bind / secondary-instance / body nodes are.  The frame and the whole primary instance are
+    thereby discharged; what remains is stated on the nodes built by the `Binds` / `Choices` / `Controls` models. -/
+theorem namesClean_of_sources {wb : Workbook} {doc : Node} {f : Fields} {lists rows drows o ditems}
+    (T : Trace wb doc f lists rows drows o ditems) (H : HeaderNoBr f)
+    (hnames : ∀ x ∈ allNamesL (withMeta rows [] o.items), noBr x = true)
+    (hrest : noBrKids ((Choices.staticInsts [] lists).map Choices.instNode ++
+      bindNodesL f.name (topNames ditems) [f.name] (dWithMeta f.name rows ditems)) = true)
+    (hbody : noBrKids (bodyNodesL [f.name] ditems) = true) : NamesClean doc := by
+  obtain ⟨ks, items, _, _, hitems, hinst, _, _⟩ := formOut_ok _ _ _ _ _ T.hform
+  have hk : ntKids o.inst = instKids false (withMeta rows [] o.items) := by
+    rw [hinst, hitems]; rfl
+  unfold NamesClean
+  rw [T.hdoc]
+  refine noBrTree_assemble f H none _ _ _ (fun ks h => by cases h) ?_ hrest hbody
+  rw [hk]
+  exact noBr_instNodes _ _ _ (ntAll_instKids noBr false _ hnames)
+
+/-- **C01 for the whole conversion, hypotheses on the sources of the names.**  As `convert_c01`, with `NamesClean`
+    replaced by: the header's user-supplied names and the names of the element tree contain no `]`, and the bind /
+    secondary-instance / body nodes are `]`-free. -/
+theorem convert_c01_sources (wb : Workbook) (p : Bool) (text : Str) (h : convert wb p = .ok text)
+    (hs : ∀ doc f lists rows drows o ditems, Trace wb doc f lists rows drows o ditems →
+      HeaderNoBr f ∧ (∀ x ∈ allNamesL (withMeta rows [] o.items), noBr x = true) ∧
+      noBrKids ((Choices.staticInsts [] lists).map Choices.instNode ++
+        bindNodesL f.name (topNames ditems) [f.name] (dWithMeta f.name rows ditems)) = true ∧
+      noBrKids (bodyNodesL [f.name] ditems) = true) :
+    holds text (normAttrVal (formId wb)) = true := by
+  refine convert_c01 wb p text h ?_
+  intro doc hd
+  obtain ⟨f, lists, rows, drows, o, ditems, T⟩ := convertDoc_trace wb doc hd
+  obtain ⟨h1, h2, h3, h4⟩ := hs doc f lists rows drows o ditems T
+  exact namesClean_of_sources T h1 h2 h3 h4
+
+#print axioms convert_c01_sources
+
 def namesCleanB (wb : Workbook) : Bool :=
   match convertDoc wb with
-  | .ok d => noBrTree d && noReserved d
+  | .ok d => noBrTree d
   | .error _ => false
 
 theorem namesClean_of_B {wb : Workbook} (h : namesCleanB wb = true) : ∀ doc, convertDoc wb = .ok doc → NamesClean doc := by
   intro doc hd
-  simp only [namesCleanB, hd, Bool.and_eq_true] at h
+  simp only [namesCleanB, hd] at h
   exact h
 
 set_option maxRecDepth 1000000 in
@@ -1373,7 +1437,7 @@ example : holds exText (normAttrVal (formId exWb)) = true :=
 example : ∃ tp tc, convert exWb true = .ok tp ∧ convert exWb false = .ok tc ∧
     Option.map stripWs (parseDoc tp) = Option.map stripWs (parseDoc tc) ∧
     (parseDoc tp).isSome = true ∧ (parseDoc tc).isSome = true :=
-  convert_c15 exWb false exText ex_convert (fun d hd => (namesClean_of_B ex_clean d hd).1)
+  convert_c15 exWb false exText ex_convert (fun d hd => namesClean_of_B ex_clean d hd)
 example : ∃ doc, convertDoc exWb = .ok doc ∧ exText = renderDoc false doc := convert_ok exWb false exText ex_convert
 example : ∃ doc, convertDoc exWb = .ok doc ∧ ∃ rt, primaryRoot doc = some rt ∧
     ∀ s ∈ bindRefs doc ++ ctlRefsL (bodyKidsOf doc),
